@@ -5,7 +5,7 @@
 (* encodings (BETWEEN / LIKE..ESCAPE as nested binaries, empty IN lists)   *)
 (* and spells operators and function names as dialect B does.              *)
 (***************************************************************************)
-EXTENDS EnginePrec
+EXTENDS EnginePrec, Ident
 
 OpText(B, op) ==
   CASE op = "And" -> "AND" [] op = "Or" -> "OR" [] op = "Like" -> "LIKE" [] op = "NotLike" -> "NOT LIKE"
@@ -28,8 +28,13 @@ OpText(B, op) ==
 
 LikeFamily == {"LIKE", "NOT LIKE", "ILIKE", "NOT ILIKE", "GLOB", "MATCH", "REGEXP"}
 \* which operators each dialect's renderer supports (others panic: outside the domain)
+\* custom operators the generators use, and the dialects that define them (everything else: all dialects)
+CustomDialects(op) ==
+  CASE op = "Custom:^" -> {"mysql", "pg"} [] op = "Custom:XOR" -> {"mysql"} [] op = "Custom:<=>" -> {"mysql"}
+    [] OTHER -> {"mysql", "pg", "sqlite"}
 OpSupported(B, op) ==
-  IF Len(op) > 2 /\ SubSeq(op, 1, 2) = "Pg" THEN B = "pg"
+  IF Len(op) > 7 /\ SubSeq(op, 1, 7) = "Custom:" THEN B \in CustomDialects(op)
+  ELSE IF Len(op) > 2 /\ SubSeq(op, 1, 2) = "Pg" THEN B = "pg"
   ELSE IF Len(op) > 6 /\ SubSeq(op, 1, 6) = "Sqlite" THEN B = "sqlite" ELSE TRUE
 
 FuncName(B, f) ==
@@ -76,6 +81,7 @@ CanonCond(B, c) ==
 Canon(B, e) ==
   CASE e.k = "col" -> CanonCol(e)
     [] e.k \in {"val", "const"} -> CanonVal(e.v)
+    [] e.k = "vals" -> IF Len(e.vs) = 1 THEN CanonVal(e.vs[1]) ELSE [k |-> "tuple", es |-> [i \in DOMAIN e.vs |-> CanonVal(e.vs[i])]]   \* a row of values
     [] e.k = "not" -> [k |-> "un", op |-> "NOT", e |-> Canon(B, e.e)]
     [] e.k = "bin" ->
          LET o == OpText(B, e.op) IN
@@ -102,6 +108,8 @@ Canon(B, e) ==
     [] e.k = "insub" -> [k |-> "in", neg |-> Neg(e), e |-> Canon(B, e.e), set |-> [k |-> "subq", op |-> ""]]
     [] e.k = "isnull" -> [k |-> "bin", op |-> IF Neg(e) THEN "IS NOT" ELSE "IS", l |-> Canon(B, e.e), r |-> [k |-> "kw", w |-> "NULL"]]
     [] e.k = "cast" -> [k |-> "cast", e |-> Canon(B, e.e), ty |-> <<e.ty>>]
+    \* as_enum: a cast to the enum type on PostgreSQL, the operand itself elsewhere
+    [] e.k = "asenum" -> IF B = "pg" THEN [k |-> "cast", e |-> Canon(B, e.e), ty |-> <<Prepare(e.ty, "\"", "\"")>>] ELSE Canon(B, e.e)
     [] e.k = "fn" -> [k |-> "fn", name |-> FuncName(B, e.f),
                       args |-> [i \in DOMAIN e.args |-> [d |-> e.f = "CountDistinct", e |-> Canon(B, e.args[i])]]]
     [] e.k = "tuple" -> IF Len(e.es) = 1 THEN Canon(B, e.es[1]) ELSE [k |-> "tuple", es |-> CanonSeq(B, e.es)]
@@ -121,7 +129,7 @@ Supported(B, e) ==
     [] e.k = "not" -> Supported(B, e.e)
     [] e.k = "between" -> Supported(B, e.e) /\ Supported(B, e.a) /\ Supported(B, e.b)
     [] e.k = "like" -> Supported(B, e.e) /\ (("ci" \in DOMAIN e /\ e.ci) => B = "pg")
-    [] e.k \in {"isnull", "cast", "insub"} -> Supported(B, e.e)
+    [] e.k \in {"isnull", "cast", "insub", "asenum"} -> Supported(B, e.e)
     [] e.k = "in" -> Supported(B, e.e) /\ \A i \in DOMAIN e.vs : Supported(B, e.vs[i])
     [] e.k = "fn" -> \A i \in DOMAIN e.args : Supported(B, e.args[i])
     [] e.k = "tuple" -> \A i \in DOMAIN e.es : Supported(B, e.es[i])
@@ -137,14 +145,15 @@ OpCount(e) ==
   CASE e.k = "bin" -> 1 + OpCount(e.l) + OpCount(e.r)
     [] e.k = "not" -> 1 + OpCount(e.e)
     [] e.k = "between" -> 1 + OpCount(e.e) + OpCount(e.a) + OpCount(e.b)
-    [] e.k \in {"like", "isnull", "cast", "insub", "in"} -> 1 + OpCount(e.e)
+    [] e.k \in {"like", "isnull", "cast", "insub", "in", "asenum"} -> 1 + OpCount(e.e)
     [] OTHER -> 0
 
 \* The named builder methods of ExprTrait / PgExpr / SqliteExpr and the operator each one is documented to build
 \* (a case may ask for a binary node to be built through its method: field "m"); the harness calls exactly that
 \* method, so a method that builds another operator makes the rendering re-parse to a different tree.
 MethodOp == JsonDeserialize("expr_methods.json")
-MethodOk(e) == "m" \notin DOMAIN e \/ (e.m \in DOMAIN MethodOp /\ MethodOp[e.m] = e.op /\ (e.m \in {"equals", "not_equals"} => e.r.k = "col"))
+MethodOk(e) == "m" \notin DOMAIN e \/ (e.m \in DOMAIN MethodOp /\ MethodOp[e.m] = e.op /\ (e.m \in {"equals", "not_equals"} => e.r.k = "col")
+                                          /\ (e.m = "in_tuples" => e.r.k = "tuple" /\ \A i \in DOMAIN e.r.es : e.r.es[i].k = "vals"))
 
 \* the tree the engine model recovers from "SELECT <expr>" ([ok, tr])
 ParsedOf(B, sql) ==
